@@ -6,7 +6,9 @@ import (
 	"context"
 	"fmt"
 	"math"
+	"runtime"
 	"strings"
+	"time"
 
 	"github.com/tetratelabs/wazero"
 	"github.com/tetratelabs/wazero/api"
@@ -108,12 +110,14 @@ type spec struct {
 	// twist makes one import incompatible / missing
 	twist string
 	// segments
-	dataSeg  bool
-	oobSeg   bool
-	elemSeg  bool
-	ownInit  bool // own mutable i32 global initialised from the imported immutable global
-	start    int  // 0 none, 1 writes cell 31, 2 writes then traps
-	constVal int32
+	dataSeg     bool
+	oobSeg      bool
+	elemSeg     bool
+	ownInit     bool // own mutable i32 global initialised from the imported immutable global
+	start       int  // 0 none, 1 writes cell 31, 2 writes then traps
+	constVal    int32
+	memMin      int  // declared minimum of the memory import (0 = 1 page)
+	noTabExport bool // an imported table is not re-exported by this module
 }
 
 func (s *spec) describe() string {
@@ -217,12 +221,18 @@ func build(s *spec, specs []*spec) []byte {
 	}
 	if s.memFrom >= 0 {
 		lim := wasmb.Limits{Min: 1, Max: memMax, HasMax: true}
+		if s.memMin > 0 {
+			lim.Min = uint32(s.memMin)
+		}
 		switch s.twist {
 		case "mem-min":
 			lim.Min = 5
 			lim.Max, lim.HasMax = 8, true
 		case "mem-max":
 			lim.Max = 2
+			if lim.Min > lim.Max {
+				lim.Min = 1
+			}
 		}
 		m.Imports = append(m.Imports, wasmb.Import{Module: modName(s.memFrom), Name: "mem", Kind: wasmb.KindMemory, Mem: lim})
 	} else {
@@ -260,7 +270,10 @@ func build(s *spec, specs []*spec) []byte {
 	for k := 0; k < nGlobals; k++ {
 		m.Exports = append(m.Exports, wasmb.Export{Name: fmt.Sprintf("g%d", k), Kind: wasmb.KindGlobal, Idx: gidx[k]})
 	}
-	m.Exports = append(m.Exports, wasmb.Export{Name: "mem", Kind: wasmb.KindMemory, Idx: 0}, wasmb.Export{Name: "tab", Kind: wasmb.KindTable, Idx: 0})
+	m.Exports = append(m.Exports, wasmb.Export{Name: "mem", Kind: wasmb.KindMemory, Idx: 0})
+	if !s.noTabExport {
+		m.Exports = append(m.Exports, wasmb.Export{Name: "tab", Kind: wasmb.KindTable, Idx: 0})
+	}
 	// functions
 	tI := m.AddType(i32, i32)
 	c := func() *wasmb.Code { return &wasmb.Code{} }
@@ -333,7 +346,8 @@ func build(s *spec, specs []*spec) []byte {
 	if s.elemSeg {
 		m.Elems = append(m.Elems, wasmb.Elem{Mode: 0, Offset: off(), Funcs: []uint32{idFn}})
 	}
-	m.Elems = append(m.Elems, wasmb.Elem{Mode: 2, Funcs: []uint32{idFn}})
+	// (no declarative segment: id is exported, which already makes ref.func id valid; a module without
+	// an active segment thus has NO element section at all)
 	if s.dataSeg {
 		// the const expression yields the cell index... as a byte offset: cells are 8 bytes apart, so
 		// the data lands at byte offset v, i.e. inside cell v/8 when v%8==0.  constVal is a multiple of 8.
@@ -377,9 +391,8 @@ func (r *runner) compatible(s *spec) (bool, string) {
 			return false, s.twist
 		}
 	}
-	if s.memFrom >= 0 {
-		// import declares min 1: always <= current size
-		_ = r.insts[s.memFrom].mem.pages
+	if s.memFrom >= 0 && s.memMin > r.insts[s.memFrom].mem.pages {
+		return false, fmt.Sprintf("memory import minimum %d > current size %d", s.memMin, r.insts[s.memFrom].mem.pages)
 	}
 	return true, ""
 }
@@ -398,6 +411,9 @@ func (c04) Run(t *tape.Tape, cfg sim.Config) (res sim.Result) {
 		ctx = experimental.WithMemoryAllocator(ctx, r.alloc)
 		r.ctx = ctx
 		defer r.alloc.freeAll()
+	}
+	if t.Chance(1, 2) {
+		rc = rc.WithMemoryCapacityFromMax(true) // growth then happens inside the existing capacity
 	}
 	r.rt = wazero.NewRuntimeWithConfig(ctx, rc)
 	defer r.rt.Close(ctx)
@@ -453,7 +469,17 @@ func (r *runner) instantiate(twisted bool) {
 			s.memFrom = pick()
 		}
 		if t.Chance(3, 4) {
-			s.tabFrom = pick()
+			// from a module that exports its table
+			var cands []int
+			for _, c := range live {
+				if !r.specs[c.idx].noTabExport {
+					cands = append(cands, c.idx)
+				}
+			}
+			if len(cands) > 0 {
+				s.tabFrom = cands[t.Choose(len(cands))]
+				s.noTabExport = t.Chance(1, 2)
+			}
 		}
 		for k := range s.gFrom {
 			if t.Chance(2, 3) {
@@ -470,6 +496,18 @@ func (r *runner) instantiate(twisted bool) {
 			s.impFn = append(s.impFn, j)
 			s.impName = append(s.impName, name)
 			s.impDef = append(s.impDef, def)
+		}
+	}
+	if s.memFrom >= 0 {
+		cur := r.insts[s.memFrom].mem.pages
+		switch t.Weighted(3, 2, 1) {
+		case 1:
+			s.memMin = cur // the import's minimum equals the CURRENT size (after growth): compatible
+		case 2:
+			s.memMin = cur + 1 // one page more than there is: incompatible
+		}
+		if s.memMin > memMax {
+			s.memMin = 0
 		}
 	}
 	s.dataSeg = t.Chance(1, 2)
@@ -495,6 +533,9 @@ func (r *runner) instantiate(twisted bool) {
 		}
 		if len(opts) > 0 {
 			s.twist = opts[t.Choose(len(opts))]
+			if s.memFrom >= 0 && s.memMin > r.insts[s.memFrom].mem.pages {
+				s.memMin = 0 // exactly one incompatibility per module
+			}
 		}
 	}
 	r.specs = append(r.specs, s)
@@ -580,7 +621,8 @@ func (r *runner) instantiate(twisted bool) {
 		panic(fmt.Sprintf("harness: generated module does not compile: %v\n%s", err, s.describe()))
 	}
 	mod, err := r.rt.InstantiateModule(r.ctx, cm, wazero.NewModuleConfig().WithName(s.name))
-	r.res.Logf("%s -> err=%v (model: ok=%v %s)", what, errLine(err), wantOK, why)
+	// (the error text is not logged: with several imports wazero reports whichever it meets first, in map order)
+	r.res.Logf("%s -> failed=%v (model: ok=%v %s)", what, err != nil, wantOK, why)
 	if (err == nil) != wantOK {
 		r.res.Fail("link-compatibility", "%s: model says instantiation ok=%v (%s), wazero returned %v", what, wantOK, why, errLine(err))
 		return
@@ -809,17 +851,27 @@ func (r *runner) step() {
 			return
 		}
 		c := leaves[t.Choose(len(leaves))]
-		// table slots holding the closed instance's functions are not called any more (C09's business)
-		for i := range c.tab.slots {
-			if c.tab.slots[i].inst == c.idx {
-				r.call(c, "tab_isnull", uint64(i)) // no-op; keep the slot, but stop calling it
-				c.tab.slots[i].inst = -2
-			}
-		}
+		// table slots holding the closed instance's functions stay callable: a shared (exported/imported)
+		// table keeps every instance involved in it alive, also after the harness dropped its references
+		// and the collector ran
 		err := c.mod.Close(r.ctx)
+		c.mod = nil
 		r.log("close m%d (a leaf: nobody imports from it) err=%v", c.idx, err)
 		r.res.Stat("fault.close_leaf_instance", 1)
 		r.insts[c.idx] = nil
+		c = nil
+		for i := 0; i < 2; i++ {
+			done := make(chan struct{})
+			sentinel := new([64]byte)
+			runtime.SetFinalizer(sentinel, func(*[64]byte) { close(done) })
+			sentinel = nil
+			runtime.GC()
+			select {
+			case <-done:
+			case <-time.After(2 * time.Second):
+			}
+		}
+		r.res.Stat("fault.forced_gc_after_close", 1)
 	case 12: // a callee in ANOTHER instance grows ITS table (which may not be ours); we then look at ours
 		if len(in.imps) == 0 {
 			return
